@@ -120,7 +120,21 @@ func vfAssume(b bool) {
 	}
 }
 
+var vfDigest []string
+
+func vfDigestString() string {
+	out := ""
+	for i, d := range vfDigest {
+		if i > 0 {
+			out += ","
+		}
+		out += d
+	}
+	return out
+}
+
 func vfAssert(b bool, id string) {
+	vfDigest = append(vfDigest, fmt.Sprintf("%s=%v", id, b))
 	if !b {
 		vfFailed = append(vfFailed, id)
 		panic(fmt.Sprintf("VF-ASSERT-FAILED %s", id))
